@@ -45,6 +45,25 @@
    script_run          fold of attempts/operator actions over a crash schedule.
    ideal_step, crash_free   the execution that is never interrupted, in closed form.
 
+   call_returns        the value one call of run_next_* hands back to main(): retrospective
+                       `return False` when the last completed step's metadata says no plates
+                       remain / `return True` after a launch; prospective
+                       `return current_plate_idx < batch_size - 1`  (375, 429, 483); None =
+                       the call did not return (interrupted, raised, pipeline exit != 0)
+   invocation          main(): `while True: should_run_again = run_next(...); if not
+                       should_run_again: break`  (495-504) - calls are repeated while the
+                       previous one returned True; --screen is read ONCE per invocation
+   op_screen           which screen the operator passes as --screen to an invocation, as a
+                       function of the output directory at invocation start.  Retrospective:
+                       always the same file (index 0).  Prospective: the operator prepares a
+                       new screen file for every batch; he hands over screen q when q batches'
+                       worth of steps are complete (on every reachable tree q is the iteration
+                       index of the first step that is not complete: op_screen_canon).
+   session             fold of invocations over a crash schedule (one entry per call, as in
+                       script_run); each invocation record keeps the operator screen it was
+                       given, so SInput inside the launches of a record means THAT screen.
+   launches_of         every launch of a session stamped with the operator screen it read.
+
    Abstracted: the <name> directory level, the work directory, files the script never
    reads (score chunks, model evaluation, versions.yml), creation of outdir itself,
    nextflow's own resume cache and asynchronous publishing.  [f_by] is a ghost field
@@ -450,3 +469,71 @@ Definition completed_of_iter (itd : Z * idir) : list (step * pdir) :=
   flat_map (fun p => match f_meta (snd p) with Some _ => [((fst itd, fst p), snd p)] | None => [] end)
            (sort_dirs (snd itd)).
 Definition completed (f : fs) : list (step * pdir) := flat_map completed_of_iter (sort_dirs f).
+
+(* ---------- the invocation level: the while-loop of main(), and the operator's screens ---------- *)
+(* what one call of run_next_* hands back to main() *)
+Definition call_returns (md : mode) (bs : Z) (g : logitem) : option bool :=
+  match g with
+  | GDone => Some false                                   (* retrospective: `return False` *)
+  | GLaunch s _ _ true =>                                 (* check_call returned: the function runs to its return *)
+      Some (match md with Retro => true | Prosp => snd s <? bs - 1 end)
+  | _ => None                                             (* interrupted / raised / pipeline exit status != 0 *)
+  end.
+
+Inductive iend :=
+| IReturned      (* the last call returned False: main() leaves its loop, exit status 0 *)
+| IRaised        (* the last call did not return: interruption, exception (the operator acts on a named directory) *)
+| IExhausted.    (* the schedule ran out while main() wanted to go on (end of the observation) *)
+
+Record ires := mkr { r_fs : fs; r_calls : list logitem; r_end : iend; r_rest : list entry }.
+
+(* one invocation of the script: consumes one schedule entry per call of run_next_* *)
+Fixpoint invocation (md : mode) (fixed : bool) (bs : Z) (n : nat) (f : fs) (sched : list entry) : ires :=
+  match sched with
+  | [] => mkr f [] IExhausted []
+  | e :: r =>
+      let '(f1, g) := attempt md fixed bs n f e in
+      match call_returns md bs g with
+      | Some true => let r2 := invocation md fixed bs n f1 r in
+                     mkr (r_fs r2) (g :: r_calls r2) (r_end r2) (r_rest r2)
+      | Some false => mkr f1 [g] IReturned r
+      | None => mkr f1 [g] IRaised r
+      end
+  end.
+
+(* index of the screen file the operator passes to an invocation started on tree f *)
+Definition op_screen (md : mode) (bs : Z) (f : fs) : Z :=
+  match md with
+  | Retro => 0
+  | Prosp => zlen (completed f) / bs
+  end.
+
+(* an invocation as observed: the operator screen it was given, its calls, how it ended.
+   Inside i_calls, SInput denotes operator screen i_screen. *)
+Record irec := mki { i_screen : Z; i_calls : list logitem; i_end : iend }.
+
+Fixpoint session (fuel : nat) (md : mode) (fixed : bool) (bs : Z) (n : nat) (f : fs) (sched : list entry)
+  : fs * list irec :=
+  match fuel, sched with
+  | S m, _ :: _ =>
+      let r := invocation md fixed bs n f sched in
+      let '(f2, recs) := session m md fixed bs n (r_fs r) (r_rest r) in
+      (f2, mki (op_screen md bs f) (r_calls r) (r_end r) :: recs)
+  | _, _ => (f, [])
+  end.
+
+(* every invocation consumes at least one entry, so length sched invocations are enough *)
+Definition script_session (md : mode) (fixed : bool) (bs : Z) (n : nat) (f : fs) (sched : list entry)
+  : fs * list irec := session (length sched) md fixed bs n f sched.
+
+(* the launches of a session, each with the operator screen its invocation was given *)
+Definition launches_of_rec (r : irec) : list (step * Z * launch) :=
+  flat_map (fun g => match g with GLaunch s l _ _ => [(s, i_screen r, l)] | _ => [] end) (i_calls r).
+Definition launches_of (l : list irec) : list (step * Z * launch) := flat_map launches_of_rec l.
+
+(* the c-th launch of the execution that is never interrupted: prospective iteration i runs
+   entirely with operator screen i *)
+Definition ideal_screen (md : mode) (bs : nat) (c : nat) : Z :=
+  match md with Retro => 0 | Prosp => Z.of_nat (c / bs) end.
+Definition ideal_stamped (md : mode) (bs : nat) (c : nat) : step * Z * launch :=
+  (step_of bs c, ideal_screen md bs c, ideal_launch md bs c).
